@@ -9,11 +9,13 @@ package absnfs
 import (
 	"bytes"
 	"encoding/binary"
+	"errors"
 	"io"
 	"math"
 	"os"
 	"path"
 	"strings"
+	"syscall"
 )
 
 // handleCreate handles NFSPROC3_CREATE - create a file
@@ -121,6 +123,10 @@ func (h *NFSProcedureHandler) handleCreate(body io.Reader, reply *RPCReply, auth
 		}
 		h.server.handler.attrCache.Invalidate(existingPath)
 		newNode, err = h.server.handler.Lookup(existingPath)
+	} else if !errors.Is(lerr, os.ErrNotExist) && !errors.Is(lerr, syscall.ENOENT) {
+		// The name could not be examined (a transient backend error, a permission
+		// problem). It may well exist: going on to Create would truncate it.
+		return nfsErrorWithWcc(reply, mapError(lerr)), nil
 	} else {
 		newNode, err = h.server.handler.Create(node, name, attrs)
 		if err == nil {
